@@ -715,7 +715,97 @@ def r3(chk, repo):
                "receives the exception")
 
 
+def quiet_completion(chk, repo):
+    """R12.1: distributing one frame's response must not stop at a request
+    that was given up: on a request's future, process_packet and
+    datagram_received ask only done() / cancelled() and complete it with
+    set_result / set_exception under that guard - result() and exception()
+    raise CancelledError for a cancelled request, which ends the
+    distribution for every request behind it in the frame"""
+    for q in (ETH + "EtherCat.process_packet",
+              ETH + "EtherCat.datagram_received"):
+        f = repo.func(q)
+        bad = [c for c in calls_in(f) if isinstance(c.func, ast.Attribute)
+               and c.func.attr in ("result", "exception") and not c.args
+               and "future" in unparse(c.func.value).lower()]
+        chk.ob("R12.1", q, "a request's future is only asked done() / "
+               "cancelled() while responses are distributed", not bad,
+               bad[0] if bad else f,
+               f"`{unparse(bad[0])}` raises CancelledError for a request "
+               f"that was cancelled: the requests behind it in the frame "
+               f"never complete" if bad else "no result() / exception()")
+
+
+def index_spaces(chk, repo):
+    """R12.4: a frame is matched to its request by its index alone.  Three
+    kinds of frames are in flight under one master - datagram frames
+    (random index drawn in roundtrip_packet), slow sync groups (a counter
+    starting at SyncGroup.packet_index) and fast sync groups (their slot in
+    the program table, below MAX_PROGS): the three index spaces are
+    disjoint - MAX_PROGS <= SyncGroup.packet_index < lowest random index"""
+    C_ = "ebpfcat.ebpfcat."
+    ev = Evaluator(repo, repo.module("ebpfcat.ebpfcat"))
+    try:
+        mp = ev.class_attr(repo.cls(C_ + "FastEtherCat"), "MAX_PROGS")
+        slow = ev.class_attr(repo.cls(C_ + "SyncGroup"), "packet_index")
+    except Unknown as e:
+        raise AnalysisError(f"R12.4: MAX_PROGS / packet_index: {e}")
+    rp = repo.func(ETH + "EtherCat.roundtrip_packet")
+    los = []
+    ev2 = Evaluator(repo, rp._module, repo.cls(ETH + "EtherCat"))
+    for c in calls_in(rp):
+        nm = (dotted(c.func) or "").split(".")[-1]
+        if nm in ("randint", "randrange") and c.args:
+            try:
+                a0 = c.args[0]
+                if isinstance(a0, ast.Starred):
+                    lo = ev2.eval(a0.value, {"self": Obj(repo.cls(
+                        ETH + "EtherCat"), {})})[0]
+                else:
+                    lo = ev2.eval(a0, {"self": Obj(repo.cls(
+                        ETH + "EtherCat"), {})})
+                los.append(lo)
+            except (Unknown, Raised, TypeError, IndexError) as e:
+                raise AnalysisError(f"R12.4: index draw `{unparse(c)}`: {e}")
+    # ... and by abstract execution: the indices the first frames of a
+    # new master go out with, every draw giving the lowest number of its
+    # range
+    eci = repo.cls(ETH + "EtherCat")
+    seen = []
+    try:
+        def lowest(*a, **k):
+            return a[0] if len(a) > 1 else 0
+        ev3 = Evaluator(repo, rp._module, eci, funcs={
+            "randint": ("hook", lowest), "randrange": ("hook", lowest),
+            "Future": ("hook", lambda *a: Obj(None, {
+                "add_done_callback": ("hook", lambda cb: None)}))})
+        me = ev3.construct(eci, ["eth0"], {})
+        me.fields["transport"] = Obj(None, {
+            "sendto": ("hook", lambda *a: None)})
+        pk = Obj(None, {"assemble": ("hook", lambda i, *a: seen.append(i)
+                                     or b"")})
+        for _ in range(3):
+            ev3.call_function(rp, [me, pk], cls=eci)
+    except (Unknown, Raised):
+        seen = []
+    los += [i for i in seen if isinstance(i, int)]
+    need(los, "R12.4: the index of a datagram frame could not be "
+              "established (no random draw found in roundtrip_packet, and "
+              "it cannot be evaluated)")
+    lo = min(los)
+    ok = isinstance(mp, int) and isinstance(slow, int) and mp <= slow < lo
+    chk.ob("R12.4", C_ + "FastEtherCat", "index spaces of fast groups, slow "
+           "groups and datagram frames are disjoint", ok,
+           repo.cls(C_ + "FastEtherCat").attr_stmts.get("MAX_PROGS"),
+           f"fast groups use 0..{mp}-1, slow groups count up from {slow}, "
+           f"datagram frames draw from {lo}" + ("" if ok else
+           ": a late frame of one kind completes a request of another "
+           "kind with its bytes"))
+
+
 def r4(chk, repo):
+    index_spaces(chk, repo)
+    quiet_completion(chk, repo)
     rule = "R12.4"
     sym = ETH + "EtherCat.roundtrip_packet"
     f = repo.func(sym)
